@@ -796,10 +796,11 @@ def is_ovld(x):
 
 
 def to_ovld(x):
-    """Return whether the argument is an ovld function/method."""
+    """Return the Ovld of an ovld function/method (made from a plain one)."""
     x = getattr(x, "__ovld__", x)
     if inspect.isfunction(x):
-        return ovld(x, fresh=True)
+        x = ovld(x, fresh=True)
+        return getattr(x, "__ovld__", x)
     else:
         return x if isinstance(x, Ovld) else None
 
